@@ -21,6 +21,7 @@ func main() {
 	child := flag.String("child", "", "internal: run as a cage worker for the named case family")
 	from := flag.Int("from", 0, "internal: first case id of a cage worker")
 	stride := flag.Int("stride", 1, "internal: case id stride of a cage worker")
+	until := flag.Int("until", 1<<30, "internal: a cage worker stops before this case id")
 	flag.Parse()
 	debug.SetGCPercent(400)
 	if t := os.Getenv("VERIF_TIER"); t != "" && *tier == "" {
@@ -33,6 +34,9 @@ func main() {
 			os.Exit(2)
 		}
 		total, run := fam(*tier)
+		if *until < total {
+			total = *until
+		}
 		env.ChildLoop(total, *from, *stride, 6<<30, run)
 		return
 	}
